@@ -1260,9 +1260,13 @@ func (e *liveEnv) liveRejected(r *h.Run, fam, kind, proto string, h2 bool) {
 	client := connect.NewClient[h.Raw, h.Raw](hc, url, opts...)
 	c.log = append(c.log, "[the client's codec is one the handler does not have: the call is answered with 415]")
 	r.Eval(fam, fmt.Sprintf("rejected/%s/%s/%v", kind, proto, h2))
+	// ended when the program is over: an operation that never returned (already reported by its
+	// step) must not keep the handler, and with it the server's shutdown, waiting
+	ctx, cancel := context.WithCancel(context.Background())
+	defer cancel()
 	switch kind {
 	case "bidi":
-		st := client.CallBidiStream(context.Background())
+		st := client.CallBidiStream(ctx)
 		c.step("Send", func() error { return st.Send(bigMsg(16)) })
 		err, ok := c.step("Receive (request side still open)", func() error { _, err := st.Receive(); return err })
 		if ok && err == nil {
@@ -1271,7 +1275,7 @@ func (e *liveEnv) liveRejected(r *h.Run, fam, kind, proto string, h2 bool) {
 		c.step("CloseRequest", func() error { return st.CloseRequest() })
 		c.step("CloseResponse", func() error { return st.CloseResponse() })
 	case "client":
-		st := client.CallClientStream(context.Background())
+		st := client.CallClientStream(ctx)
 		c.step("Send", func() error { return st.Send(bigMsg(16)) })
 		err, ok := c.step("CloseAndReceive", func() error { _, err := st.CloseAndReceive(); return err })
 		if ok && err == nil {
@@ -1279,7 +1283,7 @@ func (e *liveEnv) liveRejected(r *h.Run, fam, kind, proto string, h2 bool) {
 		}
 	default:
 		err, ok := c.step("CallUnary", func() error {
-			_, err := client.CallUnary(context.Background(), connect.NewRequest(bigMsg(16)))
+			_, err := client.CallUnary(ctx, connect.NewRequest(bigMsg(16)))
 			return err
 		})
 		if ok && err == nil {
